@@ -79,61 +79,8 @@ func c04() []*Ob {
 				}
 			}},
 		{Prop: "C04", ID: "C04.2", Engine: "INDEX", Floor: 1,
-			Desc: "the result of a binary search over [lo, hi+1] (util.BinSearchInRange / sort.Search) is compared against a bound before it is used to read an element of the ID table (GetMID/GetRID) on the fetch path",
-			Check: func(c *Ctx) {
-				roots, ok := c.Fns("(*fracmanager.Fetcher).FetchDocs")
-				if !ok {
-					return
-				}
-				scope := c.P.ScopeIfaces(roots, fetchScopePkg)
-				access := Or(MethodNamed("", "GetMID"), MethodNamed("", "GetRID"))
-				n := 0
-				for _, fn := range scope {
-					for _, bs := range CallsIn(fn, Callee("util.BinSearchInRange", "sort.Search")) {
-						n++
-						r := bs.Value()
-						bad := UncheckedIndexUses(fn, r, access)
-						for i, u := range bad {
-							c.Violation(fmt.Sprintf("index:%s:%s#%d", FuncName(fn), CallName(u), i+1), u.Pos(), "in %s the result of %s (which is hi+1 when nothing matches) reaches %s without a dominating bound check: an absent id below every stored id indexes past the table", FuncName(fn), CallName(bs), CallName(u))
-						}
-						if len(bad) == 0 {
-							c.Site(bs.Pos(), "%s: every element access with the result of %s is dominated by a comparison of that result", FuncName(fn), CallName(bs))
-						}
-						// range refinement: a lower bound carried to the next search must not exceed this search's result
-						// (the result is the first position <= id; for an absent id it is the next smaller stored id, which a later id may equal)
-						if lo, ok := bs.Common().Args[0].(*ssa.Phi); ok {
-							seenPhi := map[*ssa.Phi]bool{}
-							var edges []ssa.Value
-							var collect func(p *ssa.Phi)
-							collect = func(p *ssa.Phi) {
-								if seenPhi[p] {
-									return
-								}
-								seenPhi[p] = true
-								for _, e := range p.Edges {
-									if pp, isPhi := e.(*ssa.Phi); isPhi {
-										collect(pp)
-									} else {
-										edges = append(edges, e)
-									}
-								}
-							}
-							collect(lo)
-							for _, e := range edges {
-								if bo, isAdd := stripConvs(e).(*ssa.BinOp); isAdd && bo.Op == token.ADD {
-									if k, isK := ConstInt(bo.Y); isK && k > 0 && DerivesFrom(bo.X, func(v ssa.Value) bool { return v == r }) {
-										c.Violation("index:"+FuncName(fn)+":lower-bound-past-result", bo.Pos(), "in %s the lower bound of the next search is the previous result + %d: when the previous id was absent its result position holds the next smaller stored id, which is then excluded (a present document is reported not found)", FuncName(fn), k)
-									}
-								}
-							}
-						}
-					}
-				}
-				if fn := c.P.Func("(*frac.sealedFetchIndex).findLIDs"); fn == nil || !Current.HasCall(fn, Callee("util.BinSearchInRange", "sort.Search")) {
-					c.Undecided("index:findLIDs-anchor", token.NoPos, "(*frac.sealedFetchIndex).findLIDs no longer performs the binary search this rule is about")
-				}
-				c.Count("search_sites", n)
-			}},
+			Desc:  "the result of a binary search over [lo, hi+1] (util.BinSearchInRange / sort.Search) is compared against a bound before it is used to read an element of the ID table (GetMID/GetRID) on the fetch path",
+			Check: func(c *Ctx) { searchResultBoundChecked(c) }},
 		{Prop: "C04", ID: "C04.3", Engine: "DOM+OWN", Floor: 1,
 			Desc: "a fraction's panic becomes the batch error: fracmanager.fracFetch defers a closure that calls recover and assigns the returned error; it is the only caller of DataProvider.Fetch in fracmanager, and fetchDocsAsync reaches fractions only through it",
 			Check: func(c *Ctx) {
@@ -608,4 +555,60 @@ func ownerField(v ssa.Value) string {
 		}
 	}
 	return ""
+}
+
+// searchResultBoundChecked: rule body of C04.2, shared with other properties.
+func searchResultBoundChecked(c *Ctx) {
+	roots, ok := c.Fns("(*fracmanager.Fetcher).FetchDocs")
+	if !ok {
+		return
+	}
+	scope := c.P.ScopeIfaces(roots, fetchScopePkg)
+	access := Or(MethodNamed("", "GetMID"), MethodNamed("", "GetRID"))
+	n := 0
+	for _, fn := range scope {
+		for _, bs := range CallsIn(fn, Callee("util.BinSearchInRange", "sort.Search")) {
+			n++
+			r := bs.Value()
+			bad := UncheckedIndexUses(fn, r, access)
+			for i, u := range bad {
+				c.Violation(fmt.Sprintf("index:%s:%s#%d", FuncName(fn), CallName(u), i+1), u.Pos(), "in %s the result of %s (which is hi+1 when nothing matches) reaches %s without a dominating bound check: an absent id below every stored id indexes past the table", FuncName(fn), CallName(bs), CallName(u))
+			}
+			if len(bad) == 0 {
+				c.Site(bs.Pos(), "%s: every element access with the result of %s is dominated by a comparison of that result", FuncName(fn), CallName(bs))
+			}
+			// range refinement: a lower bound carried to the next search must not exceed this search's result
+			// (the result is the first position <= id; for an absent id it is the next smaller stored id, which a later id may equal)
+			if lo, ok := bs.Common().Args[0].(*ssa.Phi); ok {
+				seenPhi := map[*ssa.Phi]bool{}
+				var edges []ssa.Value
+				var collect func(p *ssa.Phi)
+				collect = func(p *ssa.Phi) {
+					if seenPhi[p] {
+						return
+					}
+					seenPhi[p] = true
+					for _, e := range p.Edges {
+						if pp, isPhi := e.(*ssa.Phi); isPhi {
+							collect(pp)
+						} else {
+							edges = append(edges, e)
+						}
+					}
+				}
+				collect(lo)
+				for _, e := range edges {
+					if bo, isAdd := stripConvs(e).(*ssa.BinOp); isAdd && bo.Op == token.ADD {
+						if k, isK := ConstInt(bo.Y); isK && k > 0 && DerivesFrom(bo.X, func(v ssa.Value) bool { return v == r }) {
+							c.Violation("index:"+FuncName(fn)+":lower-bound-past-result", bo.Pos(), "in %s the lower bound of the next search is the previous result + %d: when the previous id was absent its result position holds the next smaller stored id, which is then excluded (a present document is reported not found)", FuncName(fn), k)
+						}
+					}
+				}
+			}
+		}
+	}
+	if fn := c.P.Func("(*frac.sealedFetchIndex).findLIDs"); fn == nil || !Current.HasCall(fn, Callee("util.BinSearchInRange", "sort.Search")) {
+		c.Undecided("index:findLIDs-anchor", token.NoPos, "(*frac.sealedFetchIndex).findLIDs no longer performs the binary search this rule is about")
+	}
+	c.Count("search_sites", n)
 }
